@@ -32,7 +32,7 @@ Definition prints_qbytes : list (string * string) := [
   ("cat", "acd84946b19af98e");
   ("lt", "c180b3132d99efa1");
   ("clone", "daf41721d947ef2b");
-  ("copy_", "ad2d259451521b4b");
+  ("copy_", "43362cef66d5aaae");
   ("div", "0bdf26a6e6688a10");
   ("neg", "585b1d0d028cb836");
   ("unary_type_agnostic_op", "6bd3d9bb5084f4c7");
